@@ -205,12 +205,15 @@ def with_late_replacements(net, rng):
     no = (max(list(net.origins) + list(net.x_origins) + [0]) + 1)
     nd = (max(list(net.dests) + list(net.x_dests) + [0]) + 1)
     first, later = [], []
+    interior = {op[3] for op in net.ops if op[0] == "link"}      # nodes with an entering link
     for op in net.ops:
         if op[0] == "link" and rng.random() < 0.6:
             n2.x_links[nl] = dict(net.links[op[2]], vsl=None)
             first.append(("link", op[1], nl, op[3]))
             later.append(op)
             nl += 1
+        elif op[0] == "origin" and op[2] in interior and rng.random() < 0.5:
+            later.append(op)          # an on-ramp at an interior node: attached only after the network was used
         elif op[0] == "origin" and rng.random() < 0.6:
             n2.x_origins[no] = net.origins[op[1]] if rng.random() < 0.7 else rng.choice(OKINDS)
             first.append(("origin", no, op[2]))
@@ -238,6 +241,10 @@ OPT_KW = {"pi_v": "positive_init_speed", "pi_rho": "positive_init_density",
 
 
 def opts_kwargs(opts):
+    """keyword arguments of Network.step for an option set; NO option set at all (None / {}) passes nothing:
+    the library's own defaults (documented: all False) are then what is exercised"""
+    if not opts:
+        return {}
     return {OPT_KW[k]: bool(opts.get(k)) for k in OPT_KW}
 
 
@@ -369,6 +376,13 @@ def families(rng):
                                                dict(N=3, lanes=4, vsl=None), dict(N=1, lanes=2, vsl=None),
                                                dict(N=2, lanes=1, vsl=None)][next(c) % 5])
     add("two-cycle", [(0, 1), (1, 2), (2, 1), (2, 3)], {0: "main"}, {3: "free"})
+    # long links: set-iteration order of the speed-limit segments ({1, 8} iterates as 8, 1), two-digit segment
+    # indices (rho_L_10 sorts before rho_L_2)
+    add("vsl-long", [(0, 1), (1, 2)], {0: "main"}, {2: "free"},
+        linkmk=lambda r, c=itertools.count(): [dict(N=9, lanes=2, vsl=[1, 8]), dict(N=17, lanes=2, vsl=[3, 16])][next(c) % 2])
+    add("long-link", [(0, 1), (1, 2)], {0: "ramp_out"}, {2: "cong"},
+        linkmk=lambda r, c=itertools.count(): [dict(N=12, lanes=3, vsl=None), dict(N=2, lanes=3, vsl=[0])][next(c) % 2])
+    add("merge-simp-unl", [(0, 2), (1, 2), (2, 3)], {0: "main", 1: "ideal", 2: "simp_unl"}, {3: "free"}, delta=True)
     add("merge-merge", [(0, 2), (1, 2), (2, 4), (3, 4), (4, 5)], {0: "main", 1: "ideal", 3: "ramp_out"}, {5: "free"})
     add("merge-bifur-merge", [(0, 2), (1, 2), (2, 3), (2, 4), (3, 5), (4, 5), (5, 6)], {0: "main", 1: "ideal"},
         {6: "cong"})
@@ -388,6 +402,21 @@ def random_params(net, rng):
         pv[f"lp.{l}.a"] = rng.uniform(1.2, 2.5)
         pv[f"lp.{l}.turnrate"] = rng.uniform(0.2, 3.0)
         pv[f"lp.{l}.alpha"] = rng.uniform(0.0, 0.2)
+    # turn rates: sometimes all equal (the default 1.0, or a common value), sometimes one leaving link of a
+    # node closed (turn rate exactly 0) - legal values a rule may mishandle
+    nodes_, edges_ = net.graph()
+    mode = rng.random()
+    for (n, _, _) in nodes_:
+        outs = [l for (u, d, l) in edges_ if u == n]
+        if mode < 0.25:
+            for l in outs:
+                pv[f"lp.{l}.turnrate"] = 1.0
+        elif mode < 0.4 and len(outs) >= 2:
+            c = rng.choice([0.5, 1.0, 2.0])
+            for l in outs:
+                pv[f"lp.{l}.turnrate"] = c
+        elif mode < 0.55 and len(outs) >= 2:
+            pv[f"lp.{rng.choice(outs)}.turnrate"] = 0.0
     for o in net.origins:
         pv[f"C.{o}"] = rng.uniform(1500, 2500)
     pv["g.T"] = 10 / 3600
